@@ -161,7 +161,7 @@ def r_gather(repo, rep, R='R11.3'):
     st = pooled
     calls = all_calls(st)
     cfn, mode = chunker(repo)
-    chunks_call = [c for c in calls if c[1] == N(cfn.name)]
+    chunks_call = [c for c in calls if c[1] in (N(cfn.name), N(mod.aliases.get(cfn.name, cfn.name)), N('_chunks'))]
     d_doc, d_sc = st.env.get('doc', N('doc')), st.env.get('score_results', N('score_results'))
     zipped = ('call', N('list'), (('call', N('zip'), (d_doc, d_sc), ()),), ())
     if mode == 'items':
